@@ -2,6 +2,7 @@ package main
 
 import (
 	"bytes"
+	"compress/gzip"
 	"encoding/binary"
 	"encoding/hex"
 	"encoding/json"
@@ -356,6 +357,11 @@ func c05Raw(c *ctx, fn string, data []byte, decs map[string]func([]byte) error) 
 var c05MvtDecs = map[string]func([]byte) error{
 	"mvt.Unmarshal":        func(b []byte) error { _, err := mvt.Unmarshal(b); return err },
 	"mvt.UnmarshalGzipped": func(b []byte) error { _, err := mvt.UnmarshalGzipped(b); return err },
+	// the message types of the vectortile package are exported with their Unmarshal methods: decoders the library exposes
+	"vectortile.Tile":         func(b []byte) error { return (&vectortile.Tile{}).Unmarshal(b) },
+	"vectortile.Tile_Layer":   func(b []byte) error { return (&vectortile.Tile_Layer{}).Unmarshal(b) },
+	"vectortile.Tile_Feature": func(b []byte) error { return (&vectortile.Tile_Feature{}).Unmarshal(b) },
+	"vectortile.Tile_Value":   func(b []byte) error { return (&vectortile.Tile_Value{}).Unmarshal(b) },
 }
 
 var c05JSONDecs = map[string]func([]byte) error{
@@ -842,6 +848,94 @@ func init() {
 						c05Raw(c, "wkb(claimed)", append(hdr(7, 1), b...), wkbAll)
 					}
 				}
+			}
+		}
+		// members of the wrong kind inside multi-geometries: every container kind x every member kind x member count 0 / 1
+		// x 0..24 bytes behind the member's header (a decoder that accepts the member must not assume its size)
+		for _, le := range []bool{true, false} {
+			var bo binary.ByteOrder = binary.BigEndian
+			if le {
+				bo = binary.LittleEndian
+			}
+			hdr := func(typ, cnt uint32) []byte {
+				h := make([]byte, 9)
+				if le {
+					h[0] = 1
+				}
+				bo.PutUint32(h[1:], typ)
+				bo.PutUint32(h[5:], cnt)
+				return h
+			}
+			for _, ct := range []uint32{4, 5, 6, 7} {
+				for mt := uint32(1); mt <= 7; mt++ {
+					for _, mc := range []uint32{0, 1} {
+						for _, cc := range []uint32{1, 2} {
+							for k := 0; k <= 24; k += 1 + k/12 {
+								b := append(hdr(ct, cc), hdr(mt, mc)...)
+								b = append(b, make([]byte, k)...)
+								c05Raw(c, "wkb(member kinds)", b, wkbAll)
+							}
+						}
+					}
+				}
+			}
+		}
+		// gzip inside gzip: the unzipped size of what a decoder is asked to inflate is its caller's business only once
+		{
+			zip := func(b []byte) []byte {
+				var buf bytes.Buffer
+				w := gzip.NewWriter(&buf)
+				w.Write(b)
+				w.Close()
+				return buf.Bytes()
+			}
+			for _, n := range []int{1 << 16, 1 << 20, c.pick(1<<24, 1<<25)} {
+				inner := zip(make([]byte, n))
+				c05Raw(c, "mvt(gzip in gzip)", zip(inner), c05MvtDecs)
+				c05Raw(c, "mvt(gzip in gzip)", zip(zip(inner)), c05MvtDecs)
+			}
+		}
+		// protobuf wire-level shapes: short sequences of fields of every wire type (groups, unknown field numbers, lengths
+		// and varints at the ends of their ranges), for the tile decoders and the generated message types
+		{
+			varint := func(v uint64) []byte {
+				var b []byte
+				for v >= 0x80 {
+					b = append(b, byte(v)|0x80)
+					v >>= 7
+				}
+				return append(b, byte(v))
+			}
+			ends := []uint64{0, 1, 2, 127, 128, 1 << 31, 1<<31 - 1, 1 << 32, 1<<63 - 1, 1 << 63, 1<<64 - 1}
+			field := func() []byte {
+				fn := []uint64{1, 2, 3, 4, 5, 15, 16, 1000, 1<<29 - 1, 0}[c.rng.Intn(10)]
+				wt := uint64(c.rng.Intn(8))
+				b := varint(fn<<3 | wt)
+				switch wt {
+				case 0:
+					b = append(b, varint(ends[c.rng.Intn(len(ends))])...)
+					if c.rng.Intn(8) == 0 {
+						b = append(b, 0xff, 0xff, 0xff, 0xff, 0xff, 0xff, 0xff, 0xff, 0xff, 0xff, 0x01) // an over-long varint
+					}
+				case 1:
+					b = append(b, make([]byte, c.rng.Intn(9))...)
+				case 2:
+					b = append(b, varint(ends[c.rng.Intn(len(ends))])...)
+					b = append(b, make([]byte, c.rng.Intn(4))...)
+				case 5:
+					b = append(b, make([]byte, c.rng.Intn(5))...)
+				}
+				return b
+			}
+			for i := 0; i < c.pick(4000, 60000); i++ {
+				var b []byte
+				for f := 0; f < 1+c.rng.Intn(4); f++ {
+					b = append(b, field()...)
+				}
+				if c.rng.Intn(3) == 0 { // ... inside a layer of a tile
+					b = append(append(varint(3<<3|2), varint(uint64(len(b)))...), b...)
+				}
+				c05Raw(c, "mvt(wire)", b, c05MvtDecs)
 			}
 		}
 		// text that is almost WKT: the extended spellings other tools write (an SRID in front, a dimension suffix), complete
